@@ -111,6 +111,12 @@ KINDS = {
     "bare:light": ("bare:light",),
     "named": ("named",),
     "named:light": ("named:light",),
+    # hooks installed LATE: the class is created without hooks, nodes of it are linked and unlinked once, and only then the
+    # hook methods are put on the class (instrumenting a class after a tree was built; decisions cached per class)
+    "late": ("late",),
+    "late:light": ("late:light",),
+    # hooks stored on the INSTANCES (node._pre_detach = callback), the class has none
+    "insthook": ("insthook",),
 }
 
 
@@ -144,10 +150,32 @@ class Universe(object):
         self.reentered = []
         CUR[0] = self
         cls = classes()
+        if kind in ("late", "late:light"):
+            self.late_cls = self._late_class(kind)
         for lbl, ck in zip(self.labels, self.ckeys):
             self._new(lbl, ck, cls)
 
     # -- construction -----------------------------------------------------------------------
+    @staticmethod
+    def _late_class(kind):
+        import anytree
+
+        if kind == "late":
+            k = type("LateMixin", (anytree.NodeMixin,), {})
+        else:
+            k = type("LateLight", (anytree.LightNodeMixin,), {"__slots__": ()})
+        # every structural entry point is used once on throw-away nodes of this very class while it has no hooks
+        x, y, z = k(), k(), k()
+        x.parent = y
+        x.parent = z
+        x.parent = None
+        y.children = [x, z]
+        y.children = [z]
+        del y.children
+        for name, fn in HOOKS.items():
+            setattr(k, name, fn)
+        return k
+
     def _new(self, lbl, ck, cls, parent=None, children=None):
         kw = {}
         if parent is not None:
@@ -180,6 +208,14 @@ class Universe(object):
             if kw:
                 raise core.HarnessError("mixin classes have no constructor arguments")
             node = make(cls[ck])
+        elif ck in ("late", "late:light"):
+            node = make(self.late_cls)
+        elif ck == "insthook":
+            import functools
+
+            node = make(cls["bare"])
+            for name, fn in HOOKS.items():
+                setattr(node, name, functools.partial(fn, node))
         else:
             node = make(cls[ck], lbl)
         self.nodes[lbl] = node
